@@ -252,8 +252,28 @@ fn lfu_cases(quick: bool) -> Vec<LfuCase> {
             cases.push(LfuCase { counters: c, stream: s.clone(), chunk });
         }
     }
+    // clear() (shutdown) in the middle of a window: the sketch starts a fresh window, whatever is recorded afterwards
+    // is counted from zero and ages after exactly `counters` further accesses
+    let mut short: Vec<Vec<u64>> = vec![vec![]];
+    for _ in 0..5 {
+        short = short.iter().flat_map(|s| [1u64, 6].iter().map(move |h| { let mut t = s.clone(); t.push(*h); t })).collect();
+    }
+    for c in [2u64, 3, 4, 7] {
+        for s in &short {
+            for at in 1..s.len() {
+                let mut t = s.clone();
+                t.insert(at, CLEAR);
+                for chunk in [1usize, 2, 7] {
+                    cases.push(LfuCase { counters: c, stream: t.clone(), chunk });
+                }
+            }
+        }
+    }
     cases
 }
+
+/// Stream marker: `TinyLFU::clear()` is called at this point.
+const CLEAR: u64 = u64::MAX;
 
 fn lfu_check(case: &LfuCase, col: &Collector) {
     col.evaluated();
@@ -268,7 +288,7 @@ fn lfu_check(case: &LfuCase, col: &Collector) {
         let mut total = 0u64;
         let mut window_counts: std::collections::BTreeMap<u64, u64> = std::collections::BTreeMap::new();
         let keys: Vec<u64> = {
-            let mut k = case.stream.clone();
+            let mut k: Vec<u64> = case.stream.iter().copied().filter(|h| *h != CLEAR).collect();
             k.sort();
             k.dedup();
             k
@@ -277,7 +297,23 @@ fn lfu_check(case: &LfuCase, col: &Collector) {
         // (its false positives are inputs); inside a chunk the reference tracks what it adds itself
         let mut pos = 0usize;
         while pos < case.stream.len() {
-            let end = (pos + case.chunk.max(1)).min(case.stream.len());
+            if case.stream[pos] == CLEAR {
+                lfu.clear();
+                for r in rows.iter_mut() {
+                    r.iter_mut().for_each(|c| *c = 0);
+                }
+                total = 0;
+                window_counts.clear();
+                if lfu.verif_total_increments() != 0 || keys.iter().any(|k| lfu.estimate(*k) != 0) {
+                    problems.push(("clear".into(), "lfu:clear-left-residue".into(), format!("after clear() at position {} total_increments={} estimates={:?}", pos, lfu.verif_total_increments(), keys.iter().map(|k| lfu.estimate(*k)).collect::<Vec<_>>())));
+                }
+                pos += 1;
+                continue;
+            }
+            let mut end = (pos + case.chunk.max(1)).min(case.stream.len());
+            if let Some(m) = case.stream[pos..end].iter().position(|h| *h == CLEAR) {
+                end = pos + m;
+            }
             let chunk: Vec<u64> = case.stream[pos..end].to_vec();
             let mut door: std::collections::BTreeSet<u64> = keys.iter().copied().filter(|k| lfu.verif_door_keeper_has(*k)).collect();
             lfu.increment_access(chunk.clone());
@@ -366,6 +402,83 @@ fn found(col: &Collector) -> Vec<(String, String, String)> {
     col.0.lock().unwrap().violations.values().map(|(v, _)| (v.clause.clone(), v.signature.clone(), v.detail.clone())).collect()
 }
 
+// ---------------------------------------------------------------------------------------------- (d)
+/// The same statement through the whole cache: `counters` goes through the builder, accesses through the pool, the
+/// channel and the consumer thread. Recorded accesses are the delivered ones (`AccessAdded`), in hit order (one
+/// buffer, FIFO hand-over, quiescence after every step); the window is what was recorded since the last multiple of
+/// the configured counter count.
+fn cache_oracle() -> crate::harness::seq::SeqOracle {
+    use crate::harness::kit::*;
+    use crate::harness::seq::{Finding, SeqRun};
+    Arc::new(|run: &SeqRun, out: &mut Vec<Finding>| {
+        let a = run.after();
+        let n = run.setup.counters;
+        if a.stats[ACCESS_DROPPED] != 0 || run.ops.iter().any(|o| matches!(o, Op::Shutdown)) {
+            return;
+        }
+        let hits: Vec<K> = run.calls.iter().filter_map(|c| match (&c.op, &c.res) {
+            (Op::Read { k, .. }, Res::Read(Some(_))) => Some(*k),
+            _ => None,
+        }).collect();
+        let added = a.stats[ACCESS_ADDED] as usize;
+        if added > hits.len() {
+            out.push(Finding::new("recorded-more-than-hits", "lfu:recorded-more-than-hits", format!("{} accesses recorded but only {} hits happened", added, hits.len())));
+            return;
+        }
+        if a.lfu_total_increments != added as u64 % n {
+            out.push(Finding::new("ages-after-exactly-the-configured-count", "lfu:window-position-differs-from-configured-count", format!("{} accesses were recorded with counters={}: the window position must be {} but is {}", added, n, added as u64 % n, a.lfu_total_increments)));
+        }
+        let window = &hits[added - (added % n as usize)..added];
+        for k in 1..=4u64 {
+            let cnt = window.iter().filter(|h| **h == k).count() as u64;
+            let est = a.estimates[(k - 1) as usize] as u64;
+            if est < cnt.min(15) {
+                out.push(Finding::new("under-count", "lfu:estimate-under-counts-in-window", format!("key {} was recorded {} times in the current window (counters={}, {} recorded in all) but its estimate is {}", k, cnt, n, added, est)));
+            }
+        }
+        if added > 0 && added as u64 % n == 0 {
+            // right after ageing the first-access filter is empty and every counter was halved: no estimate exceeds
+            // 15 / 2, nor half of everything recorded so far (collisions with other keys included)
+            for k in 1..=4u64 {
+                let est = a.estimates[(k - 1) as usize] as u64;
+                if est > 7 || est > added as u64 / 2 {
+                    out.push(Finding::new("not-halved", "lfu:not-halved-at-the-configured-count", format!("right after the {}-th recorded access (counters={}) key {} has estimate {}", added, n, k, est)));
+                }
+            }
+        }
+    })
+}
+
+fn cache_spec(ctx: &Ctx, counters: u64, buffer: usize) -> crate::harness::seq::SeqSpec {
+    use crate::harness::kit::*;
+    use crate::props::common::{get, put};
+    let quick = ctx.quick();
+    crate::harness::seq::SeqSpec {
+        name: format!("seq/sketch-through-the-cache/counters={}/buffer={}", counters, buffer),
+        setup: Setup { weight: 100, counters, buffer, pool: 1, ..Setup::default() },
+        world: Default::default(),
+        prefix: vec![put(1, 1), put(2, 1)],
+        alphabet: vec![get(1), get(2), get(3)],
+        depth: counters as usize + buffer + if quick { 5 } else { 11 },
+        allow: None,
+        oracle: cache_oracle(),
+        keys: vec![1, 2],
+        canon_sketch: true,
+        ghost_key: Some(Arc::new(|run: &crate::harness::seq::SeqRun| {
+            // the oracle needs the hits of the current window: histories that differ in them are not merged
+            let hits: Vec<K> = run.calls.iter().filter_map(|c| match (&c.op, &c.res) {
+                (Op::Read { k, .. }, Res::Read(Some(_))) => Some(*k),
+                _ => None,
+            }).collect();
+            let added = (run.obs[run.ops.len()].stats[ACCESS_ADDED] as usize).min(hits.len());
+            let n = run.setup.counters as usize;
+            format!("{:?}/{}", &hits[added - added % n..], hits.len())
+        })),
+        max_states: 2_000_000,
+        time_cap_s: if quick { 8.0 } else { 300.0 },
+    }
+}
+
 pub fn def(ctx: &Ctx) -> PropertyDef {
     let quick = ctx.quick();
     let workers = ctx.workers;
@@ -417,11 +530,16 @@ pub fn def(ctx: &Ctx) -> PropertyDef {
             found(&col)
         }),
     });
+    // the sketch as the cache configures and feeds it (builder -> TinyLFU; reads -> access buffer -> consumer)
+    for (counters, buffer) in [(3u64, 1usize), (5, 2), (6, 1), (10, 1), (10, 3)] {
+        let name = cache_spec(ctx, counters, buffer).name;
+        scenarios.push(crate::harness::seq::seq_scenario(move |c| cache_spec(c, counters, buffer), &name));
+    }
     let _ = quick;
     PropertyDef {
         id: "C14",
-        technique: "exhaustive input enumeration of the real sketch components (packed rows, FrequencyCounter, TinyLFU) against exact reference counters: all 256 byte values x positions, all access streams over 3 hashes up to a length for every counter count and enumerated seed low bits",
-        rule: "exh: every case of the finite input spaces listed per scenario; distinct_nontrivial = distinct (counter count, seeds, stream) cases with at least two accesses / non-zero bytes",
+        technique: "exhaustive input enumeration of the real sketch components (packed rows, FrequencyCounter, TinyLFU) against exact reference counters: all 256 byte values x positions, all access streams over 3 hashes up to a length for every counter count and enumerated seed low bits; plus explicit-state breadth-first search over read sequences through the whole cache (builder-configured counter counts, access buffer, consumer thread)",
+        rule: "exh: every case of the finite input spaces listed per scenario; distinct_nontrivial = distinct (counter count, seeds, stream) cases with at least two accesses / non-zero bytes; seq: all read sequences up to the depth, canonical states (sketch included) first reached at depth >= 2",
         assumptions: vec![
             "only seed bits below the row length matter (rows are a power of two long and positions are (hash ^ seed) mod length)",
             "the first-access filter (bloom filter, fixed seed) is not predicted: the reference takes its membership answers as inputs and checks that it is empty after ageing",
